@@ -74,6 +74,7 @@ def run_one(job):
     import observe
     from vsg import config, rule_list, vhdlFile, apply_rules, severity, token_map, parser
     from vsg.vhdlFile import utils as vu
+    from vsg.vhdlFile.extract import tokens as extract_tokens
     from vsg.exceptions import ClassifyError, ConfigurationError
 
     path = job["path"]
@@ -204,6 +205,8 @@ def run_one(job):
             res = orig(oFile)
             try:
                 for toi in res or []:
+                    if not isinstance(toi, extract_tokens.New):
+                        continue  # some rules hand _analyze other structures (dictionaries of lines): not regions of interest
                     toks = [t for t in toi.get_tokens() if not isinstance(t, parser.beginning_of_file)]
                     s = toi.iStartIndex
                     if s is None or s < 0 or s + len(toks) > len(L) or any(a is not b for a, b in zip(toks, L[s : s + len(toks)])):
